@@ -24,7 +24,7 @@ func init() {
 		Doc: "no option after `--`: the flag is set only on the `--` path and every option-matcher construction is under its false edge (true edge panics)", Run: par4})
 	register(&Rule{ID: "PAR-5", Props: []string{"C01", "C03", "C08"}, Floor: 5,
 		Doc: "parse wrapper: deferred recover turns string panics into positioned ParseErrors and re-raises others; every panic of the package carries a string; trailing tokens are an error at that token; success marks the end state terminal and prepares the automaton", Run: par5})
-	register(&Rule{ID: "PAR-6", Props: []string{"C01", "C08"}, Floor: 7,
+	register(&Rule{ID: "PAR-6", Props: []string{"C01", "C08"}, Floor: 10,
 		Doc: "operator wiring: `[x]` adds a shortcut start->end, `x...` a shortcut end->start, nothing else does; choice wires every alternative between a common start and end; seq moves every transition of the next fragment's start onto the current end; groups are non-empty", Run: par6})
 	register(&Rule{ID: "PAR-7", Props: []string{"C03"}, Floor: 3,
 		Doc: "parser recursion and loops consume: atom->seq only after a consumed opener; seq loops on a consuming callee; choice loops on a consuming condition", Run: par7})
@@ -170,7 +170,23 @@ func par1(c *Ctx) {
 	for _, call := range callsTo(p.canAtom, p.is) {
 		k, ok := kindArg(call)
 		if !ok {
-			c.Undecided(Q(p.canAtom)+":kind", call.Pos(), "non-constant token kind")
+			// table-driven: the kind is the ranged element of a read-only package-level table
+			ks, okT := tableKinds(c, call.Call.Args[len(call.Call.Args)-1])
+			if !okT {
+				c.Undecided(Q(p.canAtom)+":kind", call.Pos(), "non-constant token kind")
+				continue
+			}
+			good := false
+			for _, e := range ir.EdgesWhere(p.canAtom, call, true) {
+				if allPathsReturnConst(e.To, true) {
+					good = true
+				}
+			}
+			if good {
+				for _, kk := range ks {
+					can[kk] = true
+				}
+			}
 			continue
 		}
 		// the true edge must return true
@@ -227,6 +243,81 @@ func par1(c *Ctx) {
 	c.Check(sameSet(consumed, declared) && len(declared) > 0, "kinds(parser)=kinds(lexer)", token.NoPos,
 		fmt.Sprintf("the parser can consume all %d declared token kinds", len(declared)),
 		fmt.Sprintf("declared {%s} but the parser consumes {%s}", setStr(declared), setStr(consumed)))
+}
+
+// tableKinds: v is the element, in a loop over all indices, of a package-level array or slice that
+// the package initialiser fills with constants and that is only read afterwards.
+func tableKinds(c *Ctx, v ssa.Value) ([]string, bool) {
+	var table ssa.Value
+	var idx ssa.Value
+	switch x := v.(type) {
+	case *ssa.Index:
+		table, idx = x.X, x.Index
+	case *ssa.UnOp:
+		ia, ok := x.X.(*ssa.IndexAddr)
+		if !ok {
+			return nil, false
+		}
+		table, idx = ia.X, ia.Index
+	default:
+		return nil, false
+	}
+	if !isRangeIndex(idx) {
+		if _, isPhi := idx.(*ssa.Phi); !isPhi {
+			return nil, false
+		}
+	}
+	var g *ssa.Global
+	switch t := table.(type) {
+	case *ssa.UnOp:
+		g, _ = t.X.(*ssa.Global)
+	case *ssa.Global:
+		g = t
+	}
+	if g == nil || readOnlyTable(c, g) != "" {
+		return nil, false
+	}
+	init, _ := g.Pkg.Members["init"].(*ssa.Function)
+	if init == nil {
+		return nil, false
+	}
+	var out []string
+	ok := true
+	ir.Instrs(init, func(in ssa.Instruction) {
+		st, isSt := in.(*ssa.Store)
+		if !isSt {
+			return
+		}
+		ia, isIA := st.Addr.(*ssa.IndexAddr)
+		if !isIA {
+			return
+		}
+		root := ia.X
+		if al, isAl := root.(*ssa.Alloc); isAl {
+			// slice literal backing array later stored into g
+			stored := false
+			for _, u := range *al.Referrers() {
+				if sl, isSl := u.(*ssa.Slice); isSl {
+					for _, uu := range *sl.Referrers() {
+						if s2, isS2 := uu.(*ssa.Store); isS2 && s2.Addr == ssa.Value(g) {
+							stored = true
+						}
+					}
+				}
+			}
+			if !stored {
+				return
+			}
+		} else if root != ssa.Value(g) {
+			return
+		}
+		if sv, isS := ir.ConstString(st.Val); isS {
+			out = append(out, sv)
+		} else {
+			ok = false
+		}
+	})
+	return out, ok && len(out) > 0
 }
 
 func declaredKinds(c *Ctx) map[string]bool {
@@ -733,17 +824,21 @@ func par5(c *Ctx) {
 			c.Bad(key, pn.Pos(), "panics with a value that is not a string")
 		}
 	}
-	// the deferred closure
+	// the deferred function: a closure over the named results, or a method given their addresses
 	var clo *ssa.Function
+	var dArgs []ssa.Value
 	ir.Instrs(fn, func(in ssa.Instruction) {
 		if d, ok := in.(*ssa.Defer); ok {
 			if mc, isMC := d.Call.Value.(*ssa.MakeClosure); isMC {
 				clo, _ = mc.Fn.(*ssa.Function)
+			} else if f := d.Call.StaticCallee(); f != nil && f.Pkg == fn.Pkg {
+				clo = f
+				dArgs = d.Call.Args
 			}
 		}
 	})
 	if clo == nil {
-		c.Bad(Q(fn)+":recover", fn.Pos(), "parse does not defer a recovering closure")
+		c.Bad(Q(fn)+":recover", fn.Pos(), "parse does not defer a recovering function")
 		return
 	}
 	c.Mark(clo)
@@ -754,21 +849,40 @@ func par5(c *Ctx) {
 		}
 	}
 	if rec == nil {
-		c.Bad(Q(fn)+":recover", clo.Pos(), "the deferred closure does not call recover()")
+		c.Bad(Q(fn)+":recover", clo.Pos(), "the deferred function does not call recover() itself")
 		return
 	}
-	// named results cells
+	// the named results of parse: the cells its final results are loaded from
 	var errCell, sCell *ssa.Alloc
-	ir.Instrs(fn, func(in ssa.Instruction) {
-		if al, ok := in.(*ssa.Alloc); ok {
-			switch al.Comment {
-			case "err":
-				errCell = al
-			case "s":
-				sCell = al
+	for _, r := range ir.Returns(fn) {
+		for _, res := range r.Results {
+			if ld, ok := res.(*ssa.UnOp); ok && ld.Op == token.MUL {
+				if al, isAl := ld.X.(*ssa.Alloc); isAl {
+					if types.Identical(al.Type().(*types.Pointer).Elem(), types.Universe.Lookup("error").Type()) {
+						errCell = al
+					} else if c.isNamed(al.Type().(*types.Pointer).Elem(), "internal/fsm", "State") {
+						sCell = al
+					}
+				}
 			}
 		}
-	})
+	}
+	// cellOf maps an address used in the deferred function to the cell of parse it denotes
+	cellOf := func(addr ssa.Value) *ssa.Alloc {
+		if al := ir.CellAlloc(addr); al != nil {
+			return al
+		}
+		if prm, isP := addr.(*ssa.Parameter); isP && prm.Parent() == clo {
+			for i, dp := range clo.Params {
+				if dp == prm && i < len(dArgs) {
+					if al, isAl := dArgs[i].(*ssa.Alloc); isAl {
+						return al
+					}
+				}
+			}
+		}
+		return nil
+	}
 	for _, sc := range []string{"none", "string", "other"} {
 		for _, atEOF := range []bool{true, false} {
 			if sc == "none" && !atEOF {
@@ -844,7 +958,7 @@ func par5(c *Ctx) {
 			var errVal ssa.Value
 			sNil := false
 			for _, st := range stores {
-				if al := ir.CellAlloc(st.Addr); al != nil {
+				if al := cellOf(st.Addr); al != nil {
 					if al == errCell {
 						errVal = st.Val
 					}
@@ -1131,91 +1245,69 @@ func par6(c *Ctx) {
 		}
 		reportP(c, key, fn.Pos(), problems, "opener, non-empty sequence, closer; the sequence's fragment is returned")
 	}
-	// seq(required): the first choice is unconditional under `required`
+	// seq(required): executed symbolically for required in {true,false} and canAtom() answering T..TF
 	{
 		f := p.seq
 		c.Mark(f)
-		var problems []string
-		req := f.Params[1]
-		firstOK := false
-		for _, cv := range callsTo(f, p.choice) {
-			if ir.HoldsAt(req, true, cv.Block()) && !ir.InLoop(cv.Block()) {
-				// only guard is `required`
-				if cv.Block().Idom() == f.Blocks[0] {
-					firstOK = true
+		newState := c.fnOpt("internal/fsm", "NewState")
+		for _, required := range []bool{true, false} {
+			for _, more := range []int{0, 1, 2} {
+				key := fmt.Sprintf("%s:concatenation[required=%v,more=%d]", Q(f), required, more)
+				nCan, nChoice, nState := 0, 0, 0
+				m := &symMachine{}
+				m.onCall = func(m *symMachine, call ssa.CallInstruction, callee *ssa.Function, args []symVal) (symVal, bool) {
+					switch callee {
+					case p.canAtom:
+						nCan++
+						return nCan <= more, true
+					case p.choice:
+						nChoice++
+						m.event("choice#%d", nChoice)
+						return []symVal{fmt.Sprintf("s#%d", nChoice), fmt.Sprintf("e#%d", nChoice)}, true
+					case newState:
+						nState++
+						return fmt.Sprintf("st#%d", nState), true
+					}
+					return nil, false
 				}
-			}
-		}
-		if !firstOK {
-			problems = append(problems, "a required sequence does not parse a first element unconditionally")
-		}
-		// loop: for canAtom() { choice() }
-		loopOK := false
-		for _, cv := range callsTo(f, p.choice) {
-			for _, ca := range callsTo(f, p.canAtom) {
-				if ir.HoldsAt(ca, true, cv.Block()) && ir.InLoop(cv.Block()) && ir.InLoop(ca.Block()) {
-					loopOK = true
-				}
-			}
-		}
-		if !loopOK {
-			problems = append(problems, "further elements are not parsed while canAtom() holds")
-		}
-		// the composing closure: every transition of s.Transitions onto *end; then end = e
-		var comp *ssa.Function
-		for _, an := range f.AnonFuncs {
-			comp = an
-		}
-		if comp == nil || len(comp.Params) != 2 {
-			problems = append(problems, "no composing closure")
-		} else {
-			c.Mark(comp)
-			tfn := c.fnOpt("internal/fsm", "State.T")
-			okCopy, okAdv := false, false
-			for _, tv := range callsTo(comp, tfn) {
-				// T(*end, tr.Matcher, tr.Next) for tr ranging over s.Transitions
-				mb, okM := fieldOf(tv.Call.Args[1], "Matcher")
-				nb, okN := fieldOf(tv.Call.Args[2], "Next")
-				if okM && okN && mb == nb {
-					if sl, h, isR := rangeElemHeader(mb); isR {
-						if b, okT := fieldOf(sl, "Transitions"); okT && b == ssa.Value(comp.Params[0]) {
-							if ld, isLd := tv.Call.Args[0].(*ssa.UnOp); isLd && ir.CellAlloc(ld.X) != nil {
-								if okB, _ := noBreak(h); okB {
-									_, entry, _ := loopBody(h)
-									if entry == tv.Block() || !ir.Reach(entry, map[*ssa.BasicBlock]bool{tv.Block(): true}, nil)[h] {
-										okCopy = true
-									}
-								}
-							}
+				m.onLoop = func(m *symMachine, hdr *ssa.BasicBlock, eval func(ssa.Value) symVal) (*ssa.BasicBlock, bool) {
+					from, onto, exit, ok := c.loopOverTransitions(hdr)
+					if !ok {
+						return nil, false
+					}
+					ontoV := eval(onto)
+					if ld, isLd := onto.(*ssa.UnOp); isLd && ld.Op == token.MUL {
+						if cell, isCell := eval(ld.X).(*symCell); isCell {
+							ontoV = cell.v
 						}
 					}
+					m.event("graft(%s onto %s)", symStr(eval(from)), symStr(ontoV))
+					return exit, true
 				}
-			}
-			ir.Instrs(comp, func(in ssa.Instruction) {
-				if st, ok := in.(*ssa.Store); ok && ir.CellAlloc(st.Addr) != nil && st.Val == ssa.Value(comp.Params[1]) && !ir.InLoop(st.Block()) {
-					okAdv = true
+				res := m.run(f, []symVal{"p", required}, nil)
+				if m.err != "" {
+					c.Undecided(key, f.Pos(), "cannot execute seq symbolically: %s", m.err)
+					continue
 				}
-			})
-			if !okCopy {
-				problems = append(problems, "concatenation does not move EVERY transition of the next fragment's start onto the current end")
-			}
-			if !okAdv {
-				problems = append(problems, "the current end is not advanced to the appended fragment's end")
-			}
-			// every choice() result is composed
-			for _, cv := range callsTo(f, p.choice) {
-				composed := false
-				for _, call := range ir.Calls(f) {
-					if ir.Static(call) == comp && len(call.Common().Args) == 2 && call.Common().Args[0] == extractOf(cv, 0) && call.Common().Args[1] == extractOf(cv, 1) {
-						composed = true
-					}
+				// expected: one element if required, then one per canAtom()==true; each grafted onto the running end
+				var want []string
+				end := "st#1"
+				n := more
+				if required {
+					n++
 				}
-				if !composed {
-					problems = append(problems, "an element's fragment is parsed but not appended")
+				for i := 1; i <= n; i++ {
+					want = append(want, fmt.Sprintf("choice#%d", i), fmt.Sprintf("graft(s#%d onto %s)", i, end))
+					end = fmt.Sprintf("e#%d", i)
 				}
+				got := strings.Join(m.events, " ")
+				exp := strings.Join(want, " ")
+				gotRes := symStr(symVal(res))
+				expRes := fmt.Sprintf("(st#1,%s)", end)
+				c.Check(got == exp && gotRes == expRes, key, f.Pos(), fmt.Sprintf("%s => %s", got, gotRes),
+					fmt.Sprintf("behaves as [%s] => %s, expected [%s] => %s (a required sequence parses one element unconditionally, then one per canAtom(); every fragment's start transitions move onto the running end)", got, gotRes, exp, expRes))
 			}
 		}
-		reportP(c, Q(f)+":concatenation", f.Pos(), problems, "required first element, then elements while canAtom(); each fragment's start transitions are moved onto the running end")
 	}
 	// choice
 	{
